@@ -272,6 +272,26 @@ func bbMachine(rt *rapid.T, r *ev.Rec, o bbMachineOpts, c05 *c05State) (w *bbWor
 				}
 			}
 		},
+		"splitRun": func(t *rapid.T) {
+			// the suffrage splits between two facts for one stage point: the way a round ends in a draw
+			d := genBBDesc(w).Draw(t, "ballot")
+			d.Key = ""
+			stage := rapid.SampledFrom([]string{"init", "init", "accept"}).Draw(t, "splitStage")
+			cut := rapid.IntRange(1, w.n).Draw(t, "cut")
+
+			for i := 0; i < w.n; i++ {
+				d.Node = i
+				d.Kind = stage
+
+				if i >= cut {
+					d.Kind = stage + "X"
+				}
+
+				if _, _, err := w.vote(d); err != nil {
+					t.Fatalf("Vote error: %v", err)
+				}
+			}
+		},
 		"expelRun": func(t *rapid.T) {
 			// every remaining node votes the same expel-carrying ballot: the way an expel voteproof comes about. The expel
 			// operation may be insufficiently signed, signed by an outsider or expired: then no expel voteproof may be emitted.
@@ -382,8 +402,8 @@ func TestC04(t *testing.T) {
 	defer r.Finish()
 	r.Rule("rapid state machine over a real Ballotbox: suffrage 1..7 (local a member or not), thresholds {60,67,80,100}, heights 33..35, rounds 0..2; " +
 		"actions Vote(real IsValid ballots: honest/conflicting INIT+ACCEPT, suffrage-confirm with an INIT expel voteproof, ballots carrying expels signed fully/by one/with a foreign signer/expired, " +
-		"foreign and wrong-key signers), runs of the same ballot from k nodes, Count, SetLastPointFromVoteproof, suffrage lookup found/not-found toggles, concurrent voters; " +
-		"every voteproof received on Voteproof() is judged. non-trivial = history with >=1 counted voteproof and a conflicting ballot, an expel or a concurrent phase; distinct by history")
+		"foreign and wrong-key signers), runs of the same ballot from k nodes, split votes that end in a draw, Count, SetLastPointFromVoteproof, suffrage lookup found/not-found toggles, concurrent voters; " +
+		"a second phase runs long histories (60 steps, suffrage-confirm-heavy, runs that reach results) so that records are cleaned and recycled; every voteproof received on Voteproof() is judged. non-trivial = history with >=1 counted voteproof and a conflicting ballot, an expel or a concurrent phase; distinct by history")
 	r.Floor(20)
 	r.Assume("every ballot given to Vote satisfies bl.IsValid(networkID) (launch validates before voting)",
 		"one suffrage for all heights; embedded voteproofs are valid and built by the generator",
@@ -410,5 +430,23 @@ func TestC04(t *testing.T) {
 
 			r.Sample(map[string]any{"n": w.n, "threshold": w.th.Float64(), "local_member": w.localIdx < w.n, "history": w.history, "emitted": vps})
 		}
+	})
+
+	if r.Failed() {
+		return
+	}
+
+	// ---- second phase: long histories over many stage points with suffrage-confirm ballots and runs that reach results, so
+	// that records are cleaned and recycled several times (what a voteproof contains then depends on the record bookkeeping)
+	r.Checks(60, 3000)
+	r.Steps(60)
+
+	rapid.Check(t, func(rt *rapid.T) {
+		w, counted := bbMachine(rt, r, bbMachineOpts{maxN: 5, checkC05: true}, nil)
+
+		nontrivial := counted >= 2 && w.hadExpel
+		r.Case("long;"+strings.Join(w.history, ";"), nontrivial, "phase:long", fmt.Sprintf("long-counted>=2:%v", counted >= 2))
+		r.Class("emitted", int64(len(w.emitted)))
+		r.Class("counted", int64(counted))
 	})
 }
